@@ -32,6 +32,9 @@ type Collector struct {
 	assumptions []string
 }
 
+// MaxDistinct bounds the number of distinct case hashes a shard keeps.
+var MaxDistinct = 250000
+
 func New(id, rule string) *Collector {
 	return &Collector{ID: id, Rule: rule, nontriv: map[uint64]struct{}{}, labels: map[string]int{}, excluded: map[string]int{}, maxSamples: 6}
 }
@@ -66,6 +69,11 @@ func (c *Collector) Record(repr []byte, nontrivial bool, labels []string) {
 	}
 	h := Hash(repr)
 	if _, ok := c.nontriv[h]; ok {
+		return
+	}
+	if len(c.nontriv) >= MaxDistinct {
+		// very long runs: the count becomes a lower bound instead of growing without limit
+		c.labels["distinct-nontrivial-not-counted-beyond-cap"]++
 		return
 	}
 	c.nontriv[h] = struct{}{}
